@@ -38,6 +38,7 @@ import (
 
 	"github.com/tucats/ego/internal/cli/settings"
 	"github.com/tucats/ego/internal/defs"
+	"github.com/tucats/ego/internal/language/tokens"
 	"github.com/tucats/ego/internal/server/auth"
 	"github.com/tucats/ego/internal/verifh/vh"
 )
@@ -626,12 +627,48 @@ func TestC29Cluster(t *testing.T) {
 	r.Assume("sender identity of a flush is the sender_id the sending node writes (its own instance id)")
 	r.Assume("the health checker is parked (ego.cluster.ping.interval=30m): membership changes only when the monitor makes a node leave; pings are not part of this property")
 
+	// The administrator's bearer token is minted here with the cluster's token key instead of
+	// being fetched from /services/admin/logon: that handler writes the process-wide settings map
+	// (settings.SetDefault) while background tasks read it, an unrelated data race that the
+	// race-built nodes would report on every run.
+	os.Setenv("EGO_SERVER_TOKEN_KEY", tokenKey)
+
+	adminToken, err := tokens.New("admin", "", "24h", "0c290000-0000-4000-8000-00000000c029", 0)
+	if err != nil {
+		t.Fatalf("mint token: %v", err)
+	}
+
 	runs := vh.N(2, 40)
 	purgesPerRun := vh.N(12, 50)
 	seedRng := vh.Rand("c29-cluster")
 
+	onlyRun := -1
+
+	if raw := vh.ReplayCase(); raw != nil {
+		var rc struct {
+			Run *int `json:"run"`
+		}
+
+		if json.Unmarshal(raw, &rc) != nil || rc.Run == nil {
+			r.Note("the replay case belongs to another part of C29")
+
+			return
+		}
+
+		onlyRun = *rc.Run
+		r.Distinct = 2
+	}
+
 	for runNo := 0; runNo < runs; runNo++ {
 		n := 1 + (runNo+1)%5 // 2,3,4,5,1,2,...
+
+		if onlyRun >= 0 && runNo != onlyRun {
+			// keep the PRNG streams aligned with the original run
+			seedRng.Int63()
+			seedRng.Int63()
+
+			continue
+		}
 		c := &c29Run{t: t, r: r, rng: rand.New(rand.NewSource(seedRng.Int63())), runNo: runNo}
 		c.log = &proxyLog{rng: rand.New(rand.NewSource(seedRng.Int63()))}
 
@@ -674,15 +711,7 @@ func TestC29Cluster(t *testing.T) {
 			ok = c.wire(dbPath, clusterName, i)
 		}
 
-		if ok {
-			if tok, err := c.nodes[0].srv.logon("admin"); err != nil {
-				r.Inconcl("logon: " + err.Error())
-
-				ok = false
-			} else {
-				c.token = tok
-			}
-		}
+		c.token = adminToken
 
 		if ok {
 			c.drive(purgesPerRun)
